@@ -14,8 +14,7 @@ EXPLANATION = (
     "dispatch table, the version-gate decorator and all handlers. Decides the re-initialisation mechanism for every "
     "path, not equality of responses.")
 
-CONTAINER_MUTATORS = {'append', 'extend', 'update', 'pop', 'remove', 'clear', 'insert', 'setdefault',
-                      'sort', 'reverse', 'popitem', 'discard', '__setitem__', '__delitem__'}
+CONTAINER_MUTATORS = {'__delitem__', '__setitem__', 'add', 'append', 'appendleft', 'clear', 'discard', 'extend', 'extendleft', 'insert', 'pop', 'popitem', 'remove', 'reverse', 'setdefault', 'sort', 'update'}
 
 
 def transient_fields(m):
